@@ -31,6 +31,11 @@ CHECKS["C10"] = dict(engine="query", technique="property-based testing with a le
    note="Candidate set defined as documented (first num_results of the supplied sequence + ids in accepted successes). Same transport assumption as C09.",
    ref="7.3 / C10")
 
+CHECKS["C18"] = dict(engine="filter", technique="differential property-based testing against an exact token-bucket reference + metamorphic prune relation + ledger assertions on the real Filter",
+   text="Exploration: generated arrival sequences against the real Limiter (explicit time) compared decision-by-decision with an exact integer token bucket, with a never-pruned twin (metamorphic) and a direct all-pairs window bound; generated arrival/permit/ban sequences against the real Filter and the real global permit/ban list with order-independent assertions (banned dropped, permitted passes, conforming passes, bursts bounded, offenders banned for >= the configured duration).",
+   note="Filter reads the real clock: only quotas with a 1 h period are used there (no replenishment within a case). Global PERMIT_BAN_LIST reset per case, one case at a time per process.",
+   ref="7.6 / C18")
+
 NOT_YET = {}
 
 def main():
@@ -65,6 +70,7 @@ def main():
         },
         "engines": [
             {"name": "query", "path": "harness/src/engines/query.rs", "serves_properties": ["C09", "C10"], "kind_free_text": "proptest event histories over the real query state machines and QueryPool"},
+            {"name": "filter", "path": "harness/src/props/c18.rs", "serves_properties": ["C18"], "kind_free_text": "proptest arrival sequences over the real Limiter / Filter"},
             {"name": "table", "path": "harness/src/engines/table.rs", "serves_properties": ["C07", "C08", "C16"], "kind_free_text": "proptest op histories over the real KBucketsTable"},
         ],
         "checks": checks,
